@@ -177,9 +177,19 @@ impl Record {
 
         let line_base_count = self.line_base_count.get();
         let line_width = self.line_width.get();
-        let pos = self.position() + start / line_base_count * line_width + start % line_base_count;
 
-        Ok(pos)
+        // The index record is typically read from a file, so its values cannot be trusted not to
+        // overflow.
+        (start / line_base_count)
+            .checked_mul(line_width)
+            .and_then(|n| n.checked_add(start % line_base_count))
+            .and_then(|n| n.checked_add(self.position()))
+            .ok_or_else(|| {
+                io::Error::new(
+                    io::ErrorKind::InvalidData,
+                    "invalid index record: position overflow",
+                )
+            })
     }
 }
 
